@@ -1021,3 +1021,95 @@ def r10(R):
     R.require(seen[0] or vs, 'getTid returns nothing')
     for v in vs:
         R.violation(v.node, v.message, g, v.path)
+
+
+# ------------------------------------------------------------------ C04.R11
+@rule('C04.R11', 'the basis of the next transaction id is current: a storage '
+      'reads the last id only once it holds the commit lock (it goes stale '
+      'while waiting for it), and an id supplied by the caller becomes the '
+      'basis at begin, on the same path that adopts it (a finish that a '
+      'subclass overrides cannot be relied on)', props=['C17'],
+      min_instances=2)
+def r11(R):
+    # (a) BaseStorage.tpc_begin: every path that sets _tid has set _ts
+    bs = R.prog.cls(BS)
+    f = R.method(bs, 'tpc_begin')
+    g, b, F = R.cfg(f, bs, max_depth=0)
+    R.instance('BaseStorage.tpc_begin')
+
+    def edge(node, st, lab, tgt):
+        if lab in ('e', 'eb'):
+            return st
+        for op in F.ops(node):
+            if op.kind == 'store' and path_is(op.path, ('self', '_ts')):
+                st = True
+        return st
+
+    def at(node, st):
+        for op in F.ops(node):
+            if op.kind == 'store' and path_is(op.path, ('self', '_tid')) \
+                    and not st:
+                return Violation(
+                    'BaseStorage.tpc_begin adopts a transaction id on a path '
+                    'that does not make it the basis for the following ids '
+                    '(self._ts): after transactions copied in with ids '
+                    'ahead of the clock, the next ordinary commit gets an '
+                    'id BELOW them (FileStorage has its own tpc_finish: a '
+                    'basis set there by the base class is never set)')
+        return st
+
+    vs, stats = explore(g, False, at=at, edge=edge)
+    R.count(stats)
+    for v in vs[:1]:
+        R.violation(v.node, v.message, g, v.path,
+                    key='id adopted without becoming the basis')
+    # (b) MappingStorage.tpc_begin: the last id is read under the commit lock
+    ms = R.prog.cls(MS)
+    f2 = R.method(ms, 'tpc_begin')
+    g2, b2, F2 = R.cfg(f2, ms, max_depth=0)
+    R.instance('MappingStorage.tpc_begin')
+    reads = [0]
+
+    def basis_read(node):
+        for op in F2.ops(node):
+            if op.kind == 'call' and op.path and len(op.path) == 3 and \
+                    tuple(op.path[:2]) == ('self', '_transactions') and \
+                    op.path[2] in ('maxKey', 'keys'):
+                return True
+        for x in (ast.walk(node.ast) if node.ast is not None and
+                  node.kind in ('stmt', 'test', 'return') else ()):
+            if isinstance(x, ast.Attribute) and dotted(x) == ('self',
+                                                              '_ltid') \
+                    and isinstance(x.ctx, ast.Load):
+                return True
+        return False
+
+    def edge2(node, st, lab, tgt):
+        if lab in ('e', 'eb'):
+            return st
+        for op in F2.ops(node):
+            if op.kind == 'call' and path_is(
+                    op.path, ('self', '_commit_lock', 'acquire')):
+                st = True
+        return st
+
+    def at2(node, st):
+        if basis_read(node):
+            reads[0] += 1
+            if not st:
+                return Violation(
+                    'MappingStorage.tpc_begin reads the last transaction id '
+                    'before it holds the commit lock: the value goes stale '
+                    'while it waits for a commit in progress; with a '
+                    'stalled clock it then gives the new transaction the '
+                    'SAME id as the one it waited for, whose record is '
+                    'overwritten at finish')
+        return st
+
+    vs, stats = explore(g2, False, at=at2, edge=edge2)
+    R.count(stats)
+    R.require(reads[0] or vs, 'MappingStorage.tpc_begin no longer reads the '
+              'last id')
+    for v in vs[:1]:
+        R.violation(v.node, v.message, g2, v.path,
+                    key='last id read before the commit lock')
